@@ -53,7 +53,7 @@ fn make(kind: &Kind) -> Cmd {
     Box::new(move |bes, _gate| match kind {
         Kind::Backup { version, label } => {
             let repo = es(open_with(&bes)?.to_indexed_ids())?;
-            es(backup_with(&repo, &MemSource::new("r", source(version)), label, T0 + 2000 + version as i64, &BackupOptions::default()))?;
+            es(backup_with(&repo, &MemSource::new("r", source(version)), label, T0 + 2000 + version as i64, &vkit::rep::bopts()))?;
             Ok(label.to_string())
         }
         Kind::Prune { name } => {
@@ -93,7 +93,7 @@ fn base_store() -> (Store, BTreeMap<String, LTree>) {
     let mut base = BTreeMap::new();
     for v in 0..2 {
         let repo = env.open_ids().expect("open");
-        _ = backup_with(&repo, &MemSource::new("r", source(v)), &format!("s{v}"), T0 + 1000 + v as i64, &BackupOptions::default()).expect("backup");
+        _ = backup_with(&repo, &MemSource::new("r", source(v)), &format!("s{v}"), T0 + 1000 + v as i64, &vkit::rep::bopts()).expect("backup");
     }
     // forget s0: its exclusive blobs (d1/b(0), middle of d2/c(0), d3/e, d3/f(0)) become unused
     let repo = env.open().expect("open");
